@@ -981,7 +981,7 @@ class Gen:
             c = self.e(BOOL, 1)
             body.append(['if', [[c, [[self.pick(['break', 'continue'])]]]], None])
         body += self.block(self.i(3), d, depth - 1)
-        if self.chance(20) and it[0] == 'id':
+        if self.chance(20) and it[0] == 'id' and it[1] in saved[0]:      # (an injected undefined-name fault is not in the environment)
             # "Trying to assign a new value to the iterated object inside a foreach loop will not affect foreach's control flow"
             e, _ = self.expr(base(saved[0][it[1]]), 0)
             body.append(['plusassign', it[1], e])
